@@ -125,6 +125,7 @@ def check(ctx):
     ctx.rule("R3", "no slice bound `-n` is evaluated unless n > 0 is established (x[:-0] == [] trap)", floor=1)
     ctx.rule("R5", "SQLite backend: the GC query cuts on the same age column the backend orders reads by, newest first", floor=4)
     ctx.rule("R4", "removal is control-dependent on `force or size_over < hsize`", floor=1)
+    ctx.rule("R10", "the boot time a stale lock is judged by counts the time the machine was suspended: on Linux it is computed from CLOCK_BOOTTIME only (CLOCK_MONOTONIC stops during suspend: the 'boot' then lies later than the start of every session that was running before the suspend, and the GC unlocks - and deletes - a live session's file)", floor=1)
     ctx.rule("R9", "every history file is enumerated once: where the enumeration adds $XONSH_HISTORY_FILE 'unless it is listed already', the membership test looks for the path among paths - not among the (path, mtime) pairs the list still holds before the mtimes are dropped (always 'not listed': the file is counted twice and an unforced GC removes the oldest sessions of a history that fits its limit)", floor=1)
     ctx.rule("R8", "the live session's file stays locked for as long as the session lives: every whole-file rewrite of the session's own file by a JsonHistory method (other than creating it) dumps a mapping that carries the file's metadata over - loaded from the file, or written with `locked` and `ts` - a file without them is, to every GC pass, the oldest unlocked one", floor=1)
     ctx.rule("R7", "the limit text is read in full and its unit by one exact table lookup: a regular expression applied to the limit matches the whole text (what it does not understand is an error, never dropped), and the unit spelling is a key of the unit table - no partial match against the table's keys", floor=2)
@@ -428,6 +429,7 @@ def check(ctx):
     _limit_parsing(ctx)
     _rewrite_keeps_lock(ctx)
     _enumerated_once(ctx)
+    _boot_clock(ctx)
 
 
 SESSION_END = {
@@ -741,6 +743,42 @@ def _enumerated_once(ctx):
     for c, have, want in tests:
         ok = have in (want, "empty") and have not in ("mixed", "?")
         ctx.ob("R9", st, f"`{short(c, 50)}` looks for a {want} among {have}s", ok, key="_xhj_get_history_files|membership-test-mixes-shapes", where=loc(c), detail=None if ok else f"the list holds {have} elements at this point, the needle is a {want}: the test cannot be true")
+
+
+def _boot_clock(ctx):
+    UP = "xonsh/xoreutils/uptime.py"
+    um = ctx.repo.module(UP)
+    fn = um.func("_boot_time_linux")
+    st = f"{UP}:_boot_time_linux"
+    defs = df.all_defs(fn)
+    # the clock names that can reach clock_gettime: attributes time.CLOCK_*, and names fetched with getattr(time, <name>)
+    # where <name> is a constant or ranges over a tuple / list of constants
+    names = set()
+    calls = [c for c in calls_in(fn) if (call_name(c) or "").endswith("clock_gettime")]
+    if not calls:
+        ctx.ob("R10", st, "no clock_gettime based boot time on this path (the /proc/stat btime is wall-clock boot time)", True, key="boot-clock|none")
+        return
+    for x in walk_local(fn):
+        if isinstance(x, ast.Attribute) and x.attr.startswith("CLOCK_"):
+            names.add(x.attr)
+        if isinstance(x, ast.Call) and call_name(x) == "getattr" and len(x.args) >= 2:
+            a1 = x.args[1]
+            if isinstance(a1, ast.Constant) and isinstance(a1.value, str):
+                names.add(a1.value)
+            elif isinstance(a1, ast.Name):
+                src = element_source(fn, a1.id, defs)
+                vals = [e.value for e in getattr(src, "elts", []) if isinstance(e, ast.Constant)] if src is not None else []
+                for d in defs.get(a1.id, []):
+                    if d.value is not None and isinstance(d.value, ast.Constant) and isinstance(d.value.value, str):
+                        vals.append(d.value.value)
+                if not vals:
+                    raise AnalysisError(f"{st}: cannot see which clock names `{a1.id}` ranges over")
+                names |= set(vals)
+    clocks = sorted(n_ for n_ in names if n_.startswith("CLOCK_"))
+    if not clocks:
+        raise AnalysisError(f"{st}: clock_gettime is called but no clock name was found")
+    ok = clocks == ["CLOCK_BOOTTIME"]
+    ctx.ob("R10", st, f"the clock(s) the boot time is computed from: {clocks} - CLOCK_BOOTTIME only", ok, key="boot-clock|not-boottime", where=loc(calls[0]), detail=None if ok else "a clock that stops during suspend (or is not counted from boot) puts the boot time after the start of sessions that are still alive")
 
 META = {
     "technique": "static analysis: def-use provenance of the removal set, CFG guard dominance, slice-shape rule over history/json.py",
